@@ -6,8 +6,11 @@ from common import load_known_findings
 
 NOTE = ("Theorems C02_* (Props/C02.lean): the recogniser table and the renderer table agree part by part — every value a part can take is rendered to text its own regex "
         "accepts in full (also before a non-digit continuation: maximal munch) and that reads back as the same value; unbounded numeric parts by induction on digit lists; "
-        "calendar values produced by cal_info lie in the recognised domains (except week 53: known finding). The composition over whole patterns is validated, not proved: "
-        "ops format/parse on grammar patterns and the oracle below (render -> parse -> fields equal -> re-render identical -> next run accepts).")
+        "calendar values produced by cal_info lie in the recognised domains (except week 53: known finding). The COMPOSITION over whole patterns is proved on the pattern "
+        "tree (C02_accepted_in_full, C02_roundtrip_ast, C02_roundtrip_of_date: accepted in full, read back with every part equal, re-rendered identically, for every well-formed "
+        "tree and every record in its domain); the tree is tied to the string pipeline by kernel evaluation for the README patterns and by the driver op ast_tie on every "
+        "generated pattern (same regex, same rendering; the evidence reports how many generated (pattern, record) pairs lie inside the theorems' domain). Oracle on the "
+        "implementation: render -> parse -> fields equal -> re-render identical -> next run accepts.")
 
 FIELDS_NUM = ("major", "minor", "patch", "num", "inc0", "inc1")
 
@@ -64,6 +67,9 @@ def roundtrip(rng, thorough_dates=None):
     none_flags = {"major": False, "minor": False, "patch": False, "tag": None, "tag_num": False, "pin_increments": False, "pin_date": True}
     r = impl.incr(s, pat, none_flags, [d.year, d.month, d.day], today)
     if "err" in r:
+        # a BUILD of all nines is the lexid scheme's documented maximum (C17): the next bump has no successor
+        if r["err"] == "OverflowError" and set(st["bid"]) == {"9"} and any(q in refimpl.parts_of(tree) for q in ("BUILD", "BLD")):
+            return case, None, region
         return case, "the next run fails on the announced version %r: %r" % (s, r), region
     if r.get("ok"):
         p2 = impl.parse_version(r["ok"], pat, today)
@@ -84,7 +90,7 @@ def run(chk, driver, tier):
     for _ in range(n):
         case, verdict, region = roundtrip(rng)
         if len(tie_ops) < n // 2:
-            tie_ops.append({"op": "ast_tie", "pattern": case["pattern"], "vinfo": projgen.vinfo_of_state(case["state"])})
+            tie_ops.append({"op": "ast_tie", "pattern": case["pattern"], "vinfo": projgen.vinfo_of_state(case["state"]), "today": [2026, 9, 29]})
         if verdict and region in known:
             seen53 = case
         chk.count("ok" if not verdict else "bad")
@@ -123,10 +129,21 @@ def run(chk, driver, tier):
     want = {"tokenized": True, "compile_eq": True, "render_eq": True}
     for o, got in zip(tie_ops, driver.run(tie_ops)):
         chk.evaluations += 1
-        if got != want:
+        core = {k: got.get(k) for k in want}
+        if core != want:
             chk.disagreements.append({"op": o, "impl": want, "model": got})
+            continue
+        chk.count("agree:ast_tie")
+        # how much of the generated input lies inside the domain of the round-trip theorems, and (as a test of the STATEMENT) the
+        # theorem's conclusion evaluated on each such instance: a false instance would mean the executable definitions the
+        # driver runs are not the ones the theorem is about
+        chk.count("tree_wf" if got.get("wf") else "tree_not_wf")
+        if got.get("in_domain") and got.get("anchored"):
+            chk.count("in_theorem_domain")
+            if not got.get("theorem_instance"):
+                chk.disagreements.append({"op": o, "impl": "C02_roundtrip_of_date holds on this instance", "model": got})
         else:
-            chk.count("agree:ast_tie")
+            chk.count("outside_theorem_domain")
     lines = []
     if "F-C02-week53" in known and seen53:
         lines.append("F-C02-week53: %s (witness: %s)" % (known["F-C02-week53"]["summary"][:160], {k: seen53[k] for k in list(seen53)[:3]}))
